@@ -278,4 +278,44 @@ def Seq.succMints (s : Seq) : List QOp → Nat
     | some s' => (if op.isMint then 1 else 0) + succMints s' ops
     | none => succMints s ops
 
+/-! ## Round 3 additions (definitions only ADDED; nothing above is changed)
+
+`supplyRejects`: the SUPPLY guards of an op alone (gate and randomness witness disregarded).  The harness computes the
+same predicate from its OWN bookkeeping (what it minted / burned, never from the contract's answer or an error text) and
+passes `gate=1` for a failed op exactly when that predicate holds; `C01_supplyRejects_sound` (Props/C01.lean) shows the
+model then fails too, for every gate and every witness.  `touchesSupply`: the ops that may change the minter-side
+supply state; every other op (in particular `noise` = "any other message": SetWhitelist, price / time / limit updates,
+discount price, sudo UpdateStatus, migrate, collection-side calls by non-minters, a message the model has never heard
+of) is a frame op (`C01_frame`, `C01_frame_history`). -/
+
+def Fixed.supplyRejects (s : Fixed) : FOp → Bool
+  | .mint .. => decide (s.mintable = 0)
+  | .mintFor _ id _ => decide (s.mintable = 0) || decide (id = 0) || decide (id > s.n) || decide (findId s.pos id = 0)
+  | .shuffle .. => decide (s.mintable = 0)
+  | .purge _ => decide (s.mintable ≠ 0)
+  | .burnRemaining _ => decide (s.mintable = 0)
+  | .collBurn _ id => decide (id ∉ s.coll.ids)
+  | .collTransfer _ id _ => decide (id ∉ s.coll.ids)
+  | .noise _ => false
+
+def FOp.touchesSupply : FOp → Bool
+  | .mint .. => true
+  | .mintFor .. => true
+  | .shuffle .. => true
+  | .burnRemaining .. => true
+  | _ => false
+
+def Seq.supplyRejects (s : Seq) : QOp → Bool
+  | .mint .. => decide (s.mintable = some 0)
+  | .burnRemaining _ => s.burnRemaining.isNone
+  | .purge _ => s.purge.isNone
+  | .collBurn _ id => decide (id ∉ s.coll.ids)
+  | .collTransfer _ id _ => decide (id ∉ s.coll.ids)
+  | .noise _ => false
+
+def QOp.touchesSupply : QOp → Bool
+  | .mint .. => true
+  | .burnRemaining .. => true
+  | _ => false
+
 end LP.Supply
